@@ -68,6 +68,24 @@ CHECKS["C03"] = dict(
     note=NOTE_A, technique="CrossHair-driven exhaustive enumeration of a statement-order family through the real parse(), oracle = the "
     "conjugation rule of the statement; counter-examples replayed concretely", design="§2 C03", engine="crosshair")
 
+ENUM = (" No symbolic data remains once the structure is chosen (names are dictionary keys / texts): the solver drives and closes "
+        "the enumeration of the explicit family, bodies run concretely.")
+CHECKS["C08"] = dict(
+    text=LEVEL_TEXT_A + ". Histories: every ordered pair of 28 query call shapes with in-place modification of the results, compared "
+         "observationally with a fresh instance; object-identity disjointness of all decay tables; re-parse." + ENUM,
+    note=NOTE_A, technique="CrossHair-driven exhaustive enumeration of two-step query histories on the real DecFileParser against a fresh-"
+    "instance oracle; identity-disjointness check of the internal trees", design="§2 C08", engine="crosshair")
+CHECKS["C09"] = dict(
+    text=LEVEL_TEXT_A + ". 29 400 acyclic table sets (tables given by Decay, CopyDecay or CDecay) x every mother x stable sets, against the "
+         "recursive definition." + ENUM,
+    note=NOTE_A, technique="CrossHair-driven exhaustive enumeration of acyclic table sets through the real parse()/build_decay_chains, "
+    "oracle = recursive definition", design="§2 C09", engine="crosshair")
+CHECKS["C10"] = dict(
+    text=LEVEL_TEXT_A + ". Same table-set family as C09 with decaying and stable aliases, empty blocks, products of up to 4 decaying "
+         "daughters; oracle = independent enumeration as a multiset + sum-of-products count; with and without earlier chain-building calls." + ENUM,
+    note=NOTE_A, technique="CrossHair-driven exhaustive enumeration of acyclic table sets through expand_decay_modes, oracle = multiset of "
+    "paths and path count", design="§2 C10", engine="crosshair")
+
 PENDING_REASON = "check not built yet in this session (planned, see DESIGN.md §2); not claimed until its quick command runs clean"
 NA = {
     "C20": "quantifies over process histories, interpreter starts and PYTHONHASHSEED values of code that must run untraced "
